@@ -968,3 +968,239 @@ def ver_decode(h):
     h.oblige("a version string length that exceeds the data is rejected, not truncated silently", 2 + b[1] <= n)
     h.oblige("remaining = what follows the announced string", h.eq(h.attr(r.value, "remaining"), h.mkbytes(text[k:])))
     h.cover("console version decoded")
+
+
+# ================================ 0x36 AC timer control / 0x37 AC timer status (repo-derived oracle) ==========
+# Not in the vendor document.  Oracle: module docstrings of x37_ac_timer_status.py / x36_ac_timer_ctrl.py and
+# tests/at4/comms/test_x37_ac_timer_status.py: four 8-byte slots with implicit AC numbering (slot i = AC i);
+# slot = on-timer (2 bytes), off-timer (2 bytes), 4 bytes padding (vector: 82 03 84 05 00 00 00 00 = on 02:03
+# disabled, off 04:05 disabled); timer byte1 bit8 = disabled, bit5-1 = hour,
+# timer byte2 bit6-1 = minute.  "Any ACs that are not included in the initial message will be left zeroed out."
+TMR_ASSUME = ["repo-derived oracle: the AC timer messages 0x36 / 0x37 are not in the vendor document (reverse engineered by the package author)"]
+TMR_SLOT = 8
+X37_FNS = [X37 + ":AcTimerStatusEncoder.size", X37 + ":AcTimerStatusEncoder.encode", X37 + ":AcTimerStatusEncoder._pack_timer_state",
+           X37 + ":AcTimerStatusDecoder.decode", X37 + ":AcTimerStatusDecoder._decode_timer_state"]
+X36_FNS = X37_FNS + [X36 + ":AcTimerControlDecoder.decode"]
+_AC_ORDERS = [()] + [p for n in range(1, 5) for p in __import__("itertools").permutations(range(4), n)]
+
+
+def gen_timer_state(h, name):
+    """Whole wire range of the fields: hour 5 bits (a time of day uses 0..23), minute 6 bits (0..59)."""
+    return h.new(X37 + ":AcTimerState", disabled=h.bool(name + "_disabled"), hour=h.int(name + "_hour", 0, 31), minute=h.int(name + "_minute", 0, 63))
+
+
+def zero_timer_state(h):
+    return h.new(X37 + ":AcTimerState", disabled=False, hour=0, minute=0)
+
+
+def gen_timer_entries(h):
+    """0..4 entries with pairwise distinct AC numbers 0..3 in any order (65 shapes), every timer field symbolic.
+    Returns (entries, normal form): the four-slot list in AC order with all-zero timers for the missing ACs."""
+    order = h.choice("ac_numbers", _AC_ORDERS)
+    entries = {ac: h.new(X37 + ":AcTimerStatusData", ac_number=ac, on_timer=gen_timer_state(h, f"ac{ac}_on"),
+                         off_timer=gen_timer_state(h, f"ac{ac}_off")) for ac in order}
+    normal = [entries[ac] if ac in entries else
+              h.new(X37 + ":AcTimerStatusData", ac_number=ac, on_timer=zero_timer_state(h), off_timer=zero_timer_state(h))
+              for ac in range(4)]
+    return [entries[ac] for ac in order], normal, order
+
+
+def timer_roundtrip(h, msg_cls, dec_cls, message_id):
+    entries, normal, order = gen_timer_entries(h)
+    msg = h.new(msg_cls, ac_timer_status=entries)
+    if order == (0, 1, 2, 3):
+        expect = None  # four entries 0..3 in order: plain equality
+    else:
+        # the encoder always emits four slots with implicit numbering: decode(encode(m)) == normalise(m)
+        expect = h.new(msg_cls, ac_timer_status=normal)
+        h.oblige("normal form has the same four-slot length whatever the message holds", len(normal) == 4)
+    out = roundtrip_plain(h, X37 + ":AcTimerStatusEncoder", dec_cls, msg, at4_header, message_id, expect=expect)
+    if out is not None:
+        h.oblige("always 4 slots of 8 bytes", h.length(out) == 4 * TMR_SLOT)
+
+
+@oset("at4.x37.roundtrip.request", ["C03"], X37_FNS, assumptions=TMR_ASSUME)
+def x37_roundtrip_request(h):
+    """Repo-derived oracle: the status request has no data."""
+    out = roundtrip_plain(h, X37 + ":AcTimerStatusEncoder", X37 + ":AcTimerStatusDecoder", h.new(X37 + ":AcTimerStatusRequest"), at4_header, TYPE_TIMER_STATUS)
+    if out is not None:
+        h.oblige("no data", h.length(out) == 0)
+
+
+@oset("at4.x37.roundtrip.message", ["C03"], X37_FNS, assumptions=TMR_ASSUME)
+def x37_roundtrip_message(h):
+    """Repo-derived oracle.  decode(encode(m)) == normalise(m) (== m for four entries 0..3 in order)."""
+    timer_roundtrip(h, X37 + ":AcTimerStatusMessage", X37 + ":AcTimerStatusDecoder", TYPE_TIMER_STATUS)
+
+
+@oset("at4.x36.roundtrip.message", ["C03"], X36_FNS, assumptions=TMR_ASSUME)
+def x36_roundtrip_message(h):
+    """Repo-derived oracle.  The control message shares the status encoder and wraps the status decoder."""
+    timer_roundtrip(h, X36 + ":AcTimerControlMessage", X36 + ":AcTimerControlDecoder", TYPE_TIMER_CTRL)
+
+
+def timer_wire_meaning(h, state, b1, b2, tag):
+    h.oblige(tag + "byte1 bit8 = disabled", h.eq(h.attr(state, "disabled"), b1 // 128 == 1))
+    h.oblige(tag + "byte1 bit5-1 = hour", h.attr(state, "hour") == b1 % 32)
+    h.oblige(tag + "byte2 bit6-1 = minute", h.attr(state, "minute") == b2 % 64)
+
+
+@oset("at4.x36.encode-meaning", ["C04"], X37_FNS[:3], assumptions=TMR_ASSUME)
+def x36_encode(h):
+    """Repo-derived oracle (C04: 0x36 is the command that arms / disarms the timers).  Slot i carries the entry
+    whose ac_number is i, the slots of ACs that are not in the message are all zero, padding is zero, and
+    the unused bits (byte1 bit7-6, byte2 bit8-7) are zero."""
+    entries, normal, order = gen_timer_entries(h)
+    msg = h.new(X36 + ":AcTimerControlMessage", ac_timer_status=entries)
+    r = h.method(h.new(X36 + ":AcTimerControlEncoder"), "encode", at4_header(h, TYPE_TIMER_CTRL, 4 * TMR_SLOT), msg)
+    h.oblige("encode does not raise", r.ok)
+    if not r.ok:
+        return
+    b = h.items(r.value)
+    h.oblige("32 bytes: 4 slots of 8", len(b) == 4 * TMR_SLOT)
+    if len(b) != 4 * TMR_SLOT:
+        return
+    for ac in range(4):
+        s = b[TMR_SLOT * ac:TMR_SLOT * (ac + 1)]
+        tag = f"slot {ac}: "
+        if ac in order:
+            timer_wire_meaning(h, h.attr(normal[ac], "on_timer"), s[0], s[1], tag + "on-timer ")
+            timer_wire_meaning(h, h.attr(normal[ac], "off_timer"), s[2], s[3], tag + "off-timer ")
+            h.oblige(tag + "unused bits and padding are zero",
+                     And((s[0] // 32) % 4 == 0, s[1] // 64 == 0, (s[2] // 32) % 4 == 0, s[3] // 64 == 0, *[x == 0 for x in s[4:]]))
+        else:
+            h.oblige(tag + "an AC that is not in the message is sent as all zero", And(*[x == 0 for x in s]))
+    h.cover("timer control encoded")
+
+
+def check_timer_record(h, rec, b, k, tag=""):
+    h.oblige(tag + "AC number = slot index", h.attr(rec, "ac_number") == k)
+    timer_wire_meaning(h, h.attr(rec, "on_timer"), b[0], b[1], tag + "on-timer ")
+    timer_wire_meaning(h, h.attr(rec, "off_timer"), b[2], b[3], tag + "off-timer ")
+
+
+def _install_timer_loop(h, buf, mlen):
+    """Loop contract for `for ac_number in range(message_length // 8)` (the buffer is not advanced: slot k is
+    read at offset 8 k)."""
+    from pyvc.loops import StateLoop, SpecList
+    from pyvc.values import ABytes
+
+    def n_of(it, iterable, entry, env):
+        if entry["ac_timer_status"] != []:
+            raise Exception("loop entry state does not match the contract pattern")
+        return mlen // TMR_SLOT
+
+    def at(it, k, entry):
+        return {"ac_timer_status": SpecList("x37", k)}
+
+    def check(it, k, entry, after):
+        lst = after["ac_timer_status"]
+        ok = isinstance(lst, SpecList) and len(lst.appended) == 1
+        h.oblige("x37-loop/exactly one record appended per slot", ok, kind="loop-preserve")
+        if not ok:
+            return
+        cur = ABytes(buf.arr, buf.off + TMR_SLOT * k, buf.ln - TMR_SLOT * k, buf.name)
+        check_timer_record(h, lst.appended[0], [cur.at(i) for i in range(4)], k, "slot k: ")
+
+    h.it.loop_hooks[(X37 + ":AcTimerStatusDecoder.decode", 0)] = StateLoop("x37-loop", ["ac_timer_status"], n_of, at, check)
+
+
+def timer_decode_reading(h, dec_cls, msg_cls, message_id, request_cls):
+    buf = h.abytes("payload")
+    mlen = h.int("message_length", 0, 65535)
+    if h.symbolic:
+        _install_timer_loop(h, buf, mlen)
+    r = h.method(h.new(dec_cls), "decode", buf, at4_header(h, message_id, mlen))
+    h.oblige("returns or rejects", only_rejects(h, r))
+    if not r.ok:
+        return
+    m = h.attr(r.value, "message")
+    if request_cls is not None and h.isinstance(m, request_cls):
+        h.oblige("request <=> data length 0", mlen == 0)
+        return
+    h.oblige("result is the message class of this type", h.isinstance(m, msg_cls))
+    h.oblige("a timer message has length a non-zero multiple of 8", And(mlen % TMR_SLOT == 0, mlen > 0))
+    recs = h.attr(m, "ac_timer_status")
+    if h.symbolic:
+        from pyvc.loops import SpecList
+        h.oblige("decoded list is exactly one record per 8-byte slot",
+                 And(isinstance(recs, SpecList), recs.n == mlen // TMR_SLOT if isinstance(recs, SpecList) else False,
+                     len(recs.appended) == 0 if isinstance(recs, SpecList) else False))
+    else:
+        recs = h.elems(recs)
+        h.oblige("decoded list is exactly one record per 8-byte slot", len(recs) == mlen // TMR_SLOT)
+        for k, rec in enumerate(recs):
+            check_timer_record(h, rec, list(buf[TMR_SLOT * k:TMR_SLOT * k + 4]), k, "slot k: ")
+    h.oblige("remaining = what follows the announced length", h.eq(h.attr(r.value, "remaining"), h.slice(buf, mlen)))
+    h.cover("timer message decoded")
+
+
+@oset("at4.x37.decode-reading", ["C05", "C17"], X37_FNS[3:], assumptions=TMR_ASSUME)
+def x37_decode(h):
+    """Repo-derived oracle.  Arbitrary payload, arbitrary length and slot count (loop contract)."""
+    timer_decode_reading(h, X37 + ":AcTimerStatusDecoder", X37 + ":AcTimerStatusMessage", TYPE_TIMER_STATUS, X37 + ":AcTimerStatusRequest")
+
+
+@oset("at4.x36.decode-reading", ["C05", "C17"], X36_FNS[3:], assumptions=TMR_ASSUME)
+def x36_decode(h):
+    """Repo-derived oracle.  Same reading through the control decoder; an empty payload (the status *request*)
+    is not a control message and is rejected."""
+    timer_decode_reading(h, X36 + ":AcTimerControlDecoder", X36 + ":AcTimerControlMessage", TYPE_TIMER_CTRL, None)
+
+
+# ================================ nested round trip through the registered 0x1F wrapper =======================
+
+@oset("at4.x1F.roundtrip.nested", ["C03", "C04"],
+      [EXT + ":ExtendedMessageEncoder.size", EXT + ":ExtendedMessageEncoder.encode", EXT + ":ExtendedMessageDecoder.decode", REG + ":INSTANCE"])
+def x1f_nested_roundtrip(h):
+    """The composition at4.x1F.*-parametric + per-sub-message round trips, exercised end to end on the *registered*
+    wrapper instances with one message of every registered sub-type (the requests a client sends, and the
+    quick-timer command with symbolic fields): size == bytes produced, id bytes per 4.e, decode returns the same
+    ExtendedMessage with nothing left over."""
+    which = h.choice("sub_message", ["error-request", "ability-request-all", "ability-request-one", "names-request-all",
+                                     "names-request-one", "quick-timer", "version-request"])
+    if which == "error-request":
+        sub, sid = h.new(ERR + ":AcErrorInformationRequest", ac_number=h.int("ac_number", 0, 255)), SUB_ERR
+    elif which == "ability-request-all":
+        sub, sid = h.new(ABL + ":AcAbilityRequest", ac_number="ALL"), SUB_ABILITY
+    elif which == "ability-request-one":
+        sub, sid = h.new(ABL + ":AcAbilityRequest", ac_number=h.int("ac_number", 0, 255)), SUB_ABILITY
+    elif which == "names-request-all":
+        sub, sid = h.new(GRP + ":GroupNamesRequest", group_number="ALL"), SUB_NAMES
+    elif which == "names-request-one":
+        sub, sid = h.new(GRP + ":GroupNamesRequest", group_number=h.int("group_number", 0, 255)), SUB_NAMES
+    elif which == "quick-timer":
+        sub = h.new(QTM + ":QuickTimerMessage", ac_number=h.int("ac_number", 0, 255), timer_type=h.enum("timer_type", QTM + ":TimerType"),
+                    duration=h.new("datetime:timedelta", minutes=h.int("duration_minutes", 0, 24 * 60 - 1)))
+        sid = SUB_QUICK_TIMER
+    else:
+        sub, sid = h.new(VER + ":ConsoleVersionRequest"), SUB_VERSION
+    msg = h.new(EXT + ":ExtendedMessage", sub_message=sub)
+    enc, dec = h.get(REG + ":_extended_encoder"), h.get(REG + ":_extended_decoder")
+    sz = h.method(enc, "size", msg)
+    h.oblige("size() does not raise", sz.ok)
+    if not sz.ok:
+        return
+    fac = h.raw(REG + ":HeaderFactory", _next_packet_id=h.int("next_packet_id", 0, 255))
+    hd = h.method(fac, "create_from_message", msg, sz.value)
+    h.oblige("header created, addressed 0x90 0xb0 with type 0x1F and the announced length",
+             And(hd.ok, *([h.attr(hd.value, "to_address") == ADDR_AIRTOUCH_EXTENDED, h.attr(hd.value, "from_address") == ADDR_CLIENT,
+                           h.attr(hd.value, "message_id") == EXTENDED_TYPE, h.eq(h.attr(hd.value, "message_length"), sz.value)] if hd.ok else [False])))
+    if not hd.ok:
+        return
+    e = h.method(enc, "encode", hd.value, msg)
+    h.oblige("encode() does not raise", e.ok)
+    if not e.ok:
+        return
+    out = h.items(e.value)
+    h.oblige("announced size == number of data bytes produced", h.eq(len(out), sz.value))
+    h.oblige("data starts with the documented sub-type id", And(len(out) >= 2, out[0] == sid // 256 if len(out) >= 2 else False,
+                                                                  out[1] == sid % 256 if len(out) >= 2 else False))
+    d = h.method(dec, "decode", e.value, hd.value)
+    h.oblige("decode() accepts the encoder's output", d.ok)
+    if not d.ok:
+        return
+    h.oblige("decoded message equals the original", h.eq(h.attr(d.value, "message"), msg))
+    h.oblige("nothing left over", h.length(h.attr(d.value, "remaining")) == 0)
+    h.oblige("assert_complete passes", h.method(d.value, "assert_complete").ok)
+    h.cover("nested round trip")
